@@ -25,9 +25,15 @@ oracle: (no Lean) families whose demanded output is computed from the generator'
                              inline defs at every inheritance level, dotted URIs x put_string/files, unresolvable
                              and empty URIs from all six constructs; URIs that leave the lookup root towards files
                              planted above the root, in a private sibling directory and in the second lookup
-                             directory, from all six constructs and lookup.get_template);
+                             directory, from all six constructs and lookup.get_template;
+                             chains of get_namespace (oracle_ns_chain, 14 always-run cases: callers in 2..3
+                             directories each obtain local.get_namespace('helper.html'), every helper asks for
+                             'leaf.html' through get_namespace def / body(), include_file, get_template, two
+                             three-link chains: chain i must end beside helper i - the namespaces made by
+                             get_namespace share their *name*, only the objects differ; seeded C07l));
         oracle.same_relative 2..4 callers in different directories, reached in one render, writing the same relative
-                             string through get_namespace/get_template/include_file/<%include>/<%namespace file>;
+                             string through get_namespace/get_template/include_file/<%include>/<%namespace file>
+                             (half of the get_namespace cases as two-link chains: the helper asks for 'leaf.html');
         oracle.uri_tree      random reference trees (7 kinds of reference x body/def/inline-def placement x
                              inheritance), shrunk by dropping references;
         oracle.unresolvable  a reached reference of a tree replaced by a missing or empty URI, or by a URI that climbs
@@ -1754,11 +1760,17 @@ def oracle_same_relative(ctx, sb):
             cdirs = ["/%s/x" % t for t in tops]
         api = rng.choice(["get_namespace", "get_namespace", "get_template", "include_file", "include-tag", "namespace-tag"])
         reach = rng.choice(["include", "namespace-body", "inherit", "mixed"])
+        chain = api == "get_namespace" and rng.random() < 0.5
         tpls, want_parts = [], []
         callers = ["%s/c%d.html" % (d, i) for i, d in enumerate(cdirs)]
         for i, (d, cu) in enumerate(zip(cdirs, callers)):
             target = posixpath.normpath(posixpath.join(d, rel))
-            tpls.append((target, T(body=[("t", "[h%d]" % i)])))
+            if chain:
+                # the helper, itself obtained by get_namespace(rel), asks for the same relative 'leaf.html' again
+                tpls.append((target, T(body=[("t", "("), ("an", "local", "leaf.html", "body"), ("t", ")")])))
+                tpls.append((posixpath.join(posixpath.dirname(target), "leaf.html"), T(body=[("t", "[h%d]" % i)])))
+            else:
+                tpls.append((target, T(body=[("t", "[h%d]" % i)])))
             nss = []
             if api == "get_namespace":
                 use = [("an", "local", rel, "body")]
@@ -1775,6 +1787,7 @@ def oracle_same_relative(ctx, sb):
         order = list(range(k))
         rng.shuffle(order)
         how = reach
+        hfmt = "<c%d:([h%d])>" if chain else "<c%d:[h%d]>"
         main_nss, main_body = [], []
         cd = dict(tpls)
         if how == "inherit":
@@ -1790,7 +1803,7 @@ def oracle_same_relative(ctx, sb):
                 pass
             want = "m"
             for i in order:
-                want = "<c%d:[h%d]>" % (i, i) + want
+                want = hfmt % (i, i) + want
         else:
             want = ""
             for j, i in enumerate(order):
@@ -1800,7 +1813,7 @@ def oracle_same_relative(ctx, sb):
                 else:
                     main_nss.append(NS("m%d" % j, ("f", callers[i])))
                     main_body.append(("c", ("ns", "m%d" % j), "body"))
-                want += "<c%d:[h%d]>" % (i, i)
+                want += hfmt % (i, i)
             main = T([], None, main_nss, [], main_body)
         for t in cd.values():
             t.pop("_i", None)
@@ -1814,12 +1827,86 @@ def oracle_same_relative(ctx, sb):
         finally:
             release(c)
         st["cases"] += 1
-        ctx.branch("oracle:same-relative:%s:%s:%s" % (shape, api, reach))
+        ctx.branch("oracle:same-relative:%s:%s:%s" % (shape, api + ("-chain" if chain else ""), reach))
         if (status, out) == ("ok", want):
             continue
-        report(ctx, "same-relative-uri:%s:%s" % (api, status),
-               {"input": rel, "api": api, "reached_by": reach, "callers": callers, "repro": strip_case(c), "want": want},
+        report(ctx, "same-relative-uri:%s:%s" % (api + ("-chain" if chain else ""), status),
+               {"input": rel, "api": api, "chain": chain, "reached_by": reach, "callers": callers, "repro": strip_case(c), "want": want},
                "got %s %r, the property demands %r (every caller writes %r)" % (status, out, want, rel), "oracle.same_relative")
+
+
+# ---- O6b: chains of get_namespace() - the namespace obtained by a relative get_namespace() asks again ---------
+
+def _chain_set(dirs, reach, second, third=False):
+    """main reaches one caller per directory in ONE render; every caller writes local.get_namespace('helper.html'),
+    every helper writes the SAME relative string 'leaf.html' (through `second`), optionally the leaf goes on to
+    'tip.html'.  Returns (templates, entry, demanded output): by the rule of the property each relative string denotes
+    the file beside the template it is written in, so chain i must end in directory i."""
+    tpls, want = [], ""
+    main_nss, main_body = [], []
+    for i, d in enumerate(dirs):
+        cu = "%s/c%d.html" % (d, i) if i or reach != "first-is-entry" else None
+        if second == "ns-def":
+            hitems = [("an", "local", "leaf.html", "who")]
+        elif second == "ns-body":
+            hitems = [("an", "local", "leaf.html", "body")]
+        elif second == "include_file":
+            hitems = [("ai", "local", "leaf.html", [])]
+        else:
+            hitems = [("t", "${local.get_template('leaf.html').render()}")]
+        tail = [("an", "local", "tip.html", "body")] if third else []
+        mark = [("t", "[leaf%d]" % i)] + tail
+        leaf = T(defs=[("who", False, mark)], body=[] if second == "ns-def" else mark)
+        helper = T(defs=[("show", False, [("t", "(")] + hitems + [("t", ")")])])
+        use = [("t", "<c%d:" % i), ("an", "local", "helper.html", "show"), ("t", ">")]
+        tpls += [(d + "/helper.html", helper), (d + "/leaf.html", leaf)]
+        if third:
+            tpls.append((d + "/tip.html", T(body=[("t", "[tip%d]" % i)])))
+        want += "<c%d:([leaf%d]%s)>" % (i, i, "[tip%d]" % i if third else "")
+        if cu is None:
+            main_body += use
+            continue
+        tpls.append((cu, T(body=use)))
+        if reach == "namespace-body":
+            main_nss.append(NS("m%d" % i, ("f", cu)))
+            main_body.append(("c", ("ns", "m%d" % i), "body"))
+        else:
+            main_body.append(("i", cu, []))
+    entry = dirs[0] + "/main.html"
+    tpls.insert(0, (entry, T(nss=main_nss, body=main_body)))
+    return tpls, entry, want
+
+
+def oracle_ns_chain(ctx, sb):
+    """fixed witnesses (always run): within one render, templates of 2..3 directories each obtain
+    local.get_namespace('helper.html') and each helper asks for 'leaf.html' (get_namespace + def / body(),
+    include_file, get_template) - the namespaces made by get_namespace() carry the same *name* ('helper.html') in
+    every directory, only the objects differ.  Demanded: chain i reaches the leaf (and tip) of directory i."""
+    st = ctx.stream("oracle.adversarial", "oracle")
+    plans = []
+    for second in ("ns-def", "ns-body", "include_file", "get_template"):
+        plans.append((["/a", "/b"], "first-is-entry", second, False, "put"))      # the demo shape: main calls, then includes /b
+        plans.append((["/b", "/a"], "include", second, False, "files"))
+        plans.append((["/d1", "/d2/e", "/f"], "namespace-body", second, False, "put"))
+    plans.append((["/a", "/b"], "first-is-entry", "ns-def", True, "put"))           # three links: helper -> leaf -> tip
+    plans.append((["/a/x", "/a/y", "/b/x"], "include", "ns-body", True, "files"))
+    for dirs, reach, second, third, backing in plans:
+        tpls, entry, want = _chain_set(dirs, reach, second, third)
+        c = put_or_files(ctx.rng, tpls, backing, 1)
+        c["entry"] = entry
+        materialise(c, sb)
+        try:
+            status, out = run_plain(c)
+        finally:
+            release(c)
+        st["cases"] += 1
+        ok = (status, out) == ("ok", want)
+        ctx.branch("oracle:ns-chain:%s:%s:%s:%s" % (reach, second, "3" if third else "2", "ok" if ok else status))
+        if not ok:
+            report(ctx, "get_namespace-chain:%s:%s" % (second, status),
+                   {"input": "leaf.html", "second": second, "reached_by": reach, "dirs": dirs, "repro": strip_case(c), "want": want},
+                   "got %s %r, the property demands %r (every helper.html, obtained by local.get_namespace('helper.html'), "
+                   "writes 'leaf.html': it denotes the leaf beside that helper)" % (status, out, want), "oracle.adversarial")
 
 
 def oracle_escaping(ctx, sb):
@@ -1872,7 +1959,7 @@ def oracle_escaping(ctx, sb):
 
 
 def oracle(ctx, sb):
-    for fam in (oracle_adversarial, oracle_escaping, oracle_same_relative, oracle_uri_tree, oracle_unresolvable, oracle_precedence, oracle_include):
+    for fam in (oracle_adversarial, oracle_escaping, oracle_ns_chain, oracle_same_relative, oracle_uri_tree, oracle_unresolvable, oracle_precedence, oracle_include):
         try:
             fam(ctx, sb)
         except Exception:
